@@ -255,7 +255,17 @@ def _run(case, out, w):
     nt = False
     restarted = set()
     out.label("accounts=%d" % len(w.jids))
-    for step, op in enumerate(case["ops"]):
+    ops = []
+    for op in case["ops"]:
+        if op[0] == "burst":
+            # a long acknowledged history: op[3] messages of one sender to one conversation, each delivered and receipted before the next
+            for i in range(op[3]):
+                ops += [["send", op[1], op[2], "text", {"a": False, "b": False, "pad": 0}], ["settle"]]
+            out.label("long_acknowledged_history")
+            nt = True
+        else:
+            ops.append(op)
+    for step, op in enumerate(ops):
         kind = op[0]
         if kind == "send":
             sender = w.jids[op[1] % len(w.jids)]
@@ -272,7 +282,8 @@ def _run(case, out, w):
                 others = [j for j in w.jids if j != sender]
                 to = others[int(target) % len(others)]
                 recipients = [to]
-            if len([m for m in messages if m["from"] == sender]) >= 90:
+            # (the statement's bound: fewer than 100 messages of a sender are unacknowledged at any time)
+            if len([m for m in messages if m["from"] == sender and set(m["recipients"]) - delivered_to(clients, m)]) >= 90:
                 continue
             pk = op[3]
             spec = payload_spec(pk, len(messages), op[4] if len(op) > 4 else {})
@@ -698,6 +709,11 @@ def _enum_basic():
                "ops": [["send", 0, 0, "text", o], ["settle"], ["send", 1, 0, "text", o], ["settle"], ["send", 0, 0, "text", o], ["advance"],
                        ["corrupt", 0, 0, ["xor", 0, mask]], ["settle"], ["send", 0, "g0", "text", o], ["settle"], ["send", 0, "g0", "text", o], ["advance"],
                        ["corrupt", 0, 0, ["xor", 0, mask]], ["settle"]]}
+    # more messages than the sender keeps for retries (100), every one of them delivered and receipted; then a damaged one
+    for target in ("g0", 0):
+        yield {"sub": "conversation", "accounts": 2, "registered": [True, True], "groups": [[0, 1], [0, 1]],
+               "ops": [["burst", 0, target, 103], ["send", 0, target, "text", o], ["advance"], ["corrupt", 0, 0], ["settle"],
+                       ["send", 0, target, "text", o], ["advance"], ["corrupt", 0, 0], ["settle"]]}
     yield {"sub": "conversation", "accounts": 3, "registered": [True, False, True], "groups": [[0, 1, 2], [1, 2]],
            "ops": [["send", 0, "g0", "text", o], ["send", 1, "g0", "text", o], ["send", 2, "g1", "location", o], ["send", 0, "g0", "text", o]]}
     yield {"sub": "conversation", "accounts": 2, "registered": [True, True], "groups": [[0, 1], [0, 1]],
